@@ -78,7 +78,7 @@ def table(r):
     print(f'Round {r}: {own} of {len(sel)} changes are reported by the check of the property they were written against, {anyc} of {len(sel)} by at least one check (final checks).')
     print()
 
-for r in (1, 2, 3, 4):
+for r in (1, 2, 3, 4, 5):
     print(f'#### Round {r}\n')
     table(r)
 
@@ -95,16 +95,18 @@ print(f'First run of the checks as they stood when round 3 was delivered: {own} 
 missed = sorted(s for s in fr if not fr[s]['fired'])
 print(f'Not reported by any check on the first run: {", ".join(missed)}.')
 
-f4 = '/verif/seeded/round4_first_run.json'
-if os.path.exists(f4):
-    fr = json.load(open(f4))
+for rn in (4, 5):
+    fN = f'/verif/seeded/round{rn}_first_run.json'
+    if not os.path.exists(fN):
+        continue
+    fr = json.load(open(fN))
     own = sum(1 for v in fr.values() if v['own_property_check_fired'])
     anyc = sum(1 for v in fr.values() if v['fired'])
     novel = [s for s in fr if s not in repeats]
     own_n = sum(1 for s in novel if fr[s]['own_property_check_fired'])
     any_n = sum(1 for s in novel if fr[s]['fired'])
-    print('\n#### Round 4 as first run (held out)\n')
-    print(f'First run of the checks as they stood when round 4 was delivered: {own} of {len(fr)} reported by the own property\'s check, {anyc} of {len(fr)} by some check. '
+    print(f'\n#### Round {rn} as first run (held out)\n')
+    print(f'First run of the checks as they stood when round {rn} was delivered: {own} of {len(fr)} reported by the own property\'s check, {anyc} of {len(fr)} by some check that was run. '
           f'{len(fr) - len(novel)} of the {len(fr)} changes repeat an earlier change although the agents were told which lines had been used; '
           f'of the {len(novel)} that do not, {own_n} were reported by the own property\'s check and {any_n} by some check on that first run.')
     missed = sorted(s for s in fr if not fr[s]['fired'])
